@@ -429,6 +429,29 @@ let check_chess line f =
                          ("spec:never-panics", "no-TRAP", if tag = "TRAP" then tag else "no-TRAP")] @ playable)
   | _ -> failwith "chess fields"
 
+(* ---------- C17 book ---------- *)
+let book_memo : (string, position option) Hashtbl.t = Hashtbl.create 40000
+let () = Hashtbl.replace book_memo "" (Some api_spec_start)
+let check_book line f =
+  match f with
+  | ["BK"; path; ok] ->
+    let parts = String.split_on_char ' ' path in
+    let last = List.nth parts (List.length parts - 1) in
+    let parent = String.concat " " (List.filteri (fun i _ -> i < List.length parts - 1) parts) in
+    let pp = try Hashtbl.find book_memo parent with Not_found -> None in
+    (match pp with
+     | None -> cmp_line "BK" line [("spec:book move legal under the rules (parent line already illegal)", "1", "0")]
+     | Some p ->
+       let m = (match String.split_on_char '.' last with [a; b] -> api_mk_move (ni a) (ni b) None | _ -> failwith "bk") in
+       let legal = api_spec_is_legal p m in
+       Hashtbl.replace book_memo path (if legal then Some (api_spec_make p m) else None);
+       cmp_line "BK" line [("spec:book move legal under the rules (no promotion choice)", "1", b01 legal);
+                           ("spec:move_mut accepts the book move", "1", ok)])
+  | ["BKS"; nodes; depth; empty] ->
+    cmp_line "BKS" line [("model:book node count = nodes walked by the Coq sweep", "29036", nodes);
+                         ("model:book depth", "8", depth); ("spec:EMPTY_BOOK_MOVES yields nothing", "0", empty)]
+  | _ -> failwith "book fields"
+
 let dispatch line =
   let f = String.split_on_char '\t' line in
   match f with
@@ -439,6 +462,7 @@ let dispatch line =
   | ("AB" | "AS") :: _ -> check_abi line f
   | "TR" :: _ -> check_tr line f
   | ("PO" | "MV" | "CK" | "LG" | "FP" | "BL") :: _ -> check_chess line f
+  | ("BK" | "BKS") :: _ -> check_book line f
   | "DIST" :: _ -> ()
   | k :: _ -> bump ("UNKNOWN:" ^ k) 1; diff "UNKNOWN" k "" line
   | [] -> ()
